@@ -5,6 +5,7 @@ from . import common
 from .panics import own_panic_sites
 
 EXPLANATION = (
+    "(R7) the id-preserving edge constructor every copy path uses registers each edge in the forward and the backward adjacency, with mirrored endpoints and under the same conditions. "
     "Decides structural necessary conditions of graph-preserving copies on the MIR of export_snapshot, "
     "import_snapshot, save and to_memory: (R1) every field of the snapshot / log records is fed from the same-named "
     "field of the source entity and every store constructor argument from the same-named field of the snapshot/source "
@@ -35,6 +36,10 @@ def _kind_ok(tags, want_edge):
 
 def run(ctx):
     P = ctx.program()
+    # every copy path (import_snapshot, save, to_memory, WAL replay) builds its edges with create_edge_with_id: the copy has
+    # the source's incoming lists only if that constructor registers every edge in both directions under the same conditions
+    from .c14 import adjacency_mirrored
+    adjacency_mirrored(ctx, P, "R7", ("create_edge_with_id",), floor=1)
     E = ctx.effects()
     paths = {n: P.fn("GrafeoDB::" + n) for n in ("export_snapshot", "import_snapshot", "save", "to_memory")}
     n1 = 0
